@@ -244,6 +244,10 @@ class _LinkInterp:
                 return c
             if self.whole and isinstance(n.func, ast.Attribute) and n.func.attr == 'layers_forward' and not n.args:
                 return list(self.sources)
+            if self.whole and isinstance(n.func, ast.Attribute) and n.func.attr == 'layers_backward' and not n.args:
+                return list(self.sources)[::-1]
+            if self.whole and fn == 'reversed' and len(n.args) == 1:
+                return list(self.value(n.args[0]))[::-1]
             if self.whole and fn == 'enumerate' and len(n.args) == 1:
                 return list(enumerate(self.value(n.args[0])))
             if self.whole and fn == 'zip':
